@@ -36,14 +36,14 @@ func init() {
 		Subs: []*run.Sub{
 			{Name: "exact", N: func(t string) uint64 {
 				if t == "thorough" {
-					return 2_000_000
+					return 5_000_000
 				}
 				return 100_000
 			}, Run: func(c *run.Ctx, idx uint64) { c07Run(c, idx, true) },
 				Min: map[string]int64{"histories": 50000, "steps": 1000000, "selector_comparisons": 1000000, "incrementing_writes": 100000, "paths_drawn": 50000, "gradient_paints": 2000, "through_logger": 2000, "raster_calls_compared": 500000}},
 			{Name: "helpers", N: func(t string) uint64 {
 				if t == "thorough" {
-					return 2_000_000
+					return 5_000_000
 				}
 				return 100_000
 			}, Run: func(c *run.Ctx, idx uint64) { c07Run(c, idx, false) },
